@@ -82,6 +82,7 @@ type wWorld struct {
 	Walks   []walkJ  `json:"walks"`   // C07: start nodes and visitor policies
 	Queries []queryJ `json:"queries"` // C05: dependency accessor calls, in order
 	Ops     []opJ    `json:"ops"`     // C06: accessor calls / walks, in order
+	Param   string   `json:"param"`   // C17: the request's parameter string ("" or "paths=source_relative")
 }
 
 type ref struct {
@@ -274,10 +275,25 @@ type worldGen struct {
 	msgs   []declMsg
 	enums  []declEnum
 	used   map[string]bool
+	goNames bool
 	pooled bool // draw names from small pools, unique per scope only
 	long   bool // pad names so that qualified names reach 100-300 bytes
 	// needZero: only enums whose first value is 0 may be picked (map values)
 	needZero bool
+}
+
+// identifiers of every admissible spelling, names equal to generated method names, fields
+// colliding with each other's getters, oneof members colliding with nested types
+var goNamePools = map[string][]string{
+	"M": {"Item", "item", "_Item", "Item_", "I_tem", "item2", "Item2D", "ITEM", "i", "X_y", "Foo", "Bar", "foo_bar", "Get", "M_Foo", "Foo_"},
+	"E": {"Kind", "kind", "_kind", "Kind_", "K_ind", "KIND", "Foo"},
+	"V": {"UNKNOWN", "first", "_second", "Third_", "o_ther", "x", "V1", "v_1"},
+	"f": {"foo", "get_foo", "reset", "string", "proto_message", "descriptor", "marshal", "unmarshal", "extension_map", "extension_range_array", "foo_", "_foo", "foo__bar",
+		"Foo", "fooBar", "foo1", "f_1", "get_reset", "get_get_foo", "x_y_z", "bar", "get_bar", "Reset", "reset_", "get", "get_", "item", "kind"},
+	"of": {"foo", "bar", "item", "kind", "reset", "get_foo", "foo_", "Foo", "baz", "string", "get_bar"},
+	"o": {"choice", "reset", "string", "which_one", "Choice", "_c", "c_", "get_foo", "descriptor"},
+	"mp": {"labels", "index", "foo_map", "Attrs", "reset"}, "x": {"tag", "ext_1", "_note"},
+	"S": {"Api", "admin_svc", "_Svc", "svc2"}, "Rpc": {"Get", "put_it", "_list", "List2"},
 }
 
 var namePools = map[string][]string{
@@ -296,6 +312,9 @@ func (wg *worldGen) fresh(prefix, scope string) string {
 	}
 	if wg.pooled {
 		pool := namePools[prefix]
+		if wg.goNames {
+			pool = goNamePools[prefix]
+		}
 		for try := 0; try < 6 && len(pool) > 0; try++ {
 			n := pool[wg.r.Intn(len(pool))]
 			if wg.long {
@@ -338,6 +357,7 @@ func camelOfField(name string) string {
 }
 
 type genOpts struct {
+	goNames   bool // adversarial Go-relevant identifiers
 	maxFiles  int
 	maxDepth  int
 	locs      bool
@@ -349,7 +369,7 @@ func fqnJoin(scope, name string) string { return scope + "." + name }
 
 // genWorld builds a world that protobuf's validation accepts by construction.
 func genWorld(r *rand.Rand, o genOpts) wWorld {
-	wg := &worldGen{r: r, extNum: 1000, pooled: r.Intn(2) == 0, long: r.Intn(6) == 0}
+	wg := &worldGen{r: r, extNum: 1000, pooled: r.Intn(2) == 0 || o.goNames, long: r.Intn(6) == 0 && !o.goNames, goNames: o.goNames}
 	nf := 1 + r.Intn(o.maxFiles)
 	shape := r.Intn(4)
 	pkgs := []string{"", "a", "a.b", "c"}
@@ -443,7 +463,14 @@ func genWorld(r *rand.Rand, o genOpts) wWorld {
 			fp.Services = append(fp.Services, s)
 		}
 		if o.goPkg {
-			fp.GoPackage = fmt.Sprintf("example.com/gen/p%d", r.Intn(3))
+			dir := "."
+			if i := strings.LastIndex(fp.Name, "/"); i >= 0 {
+				dir = fp.Name[:i]
+			}
+			pool := []string{"example.com/gen/alpha", "example.com/gen/beta;betapkg", "example.com/x/go-pkg", "example.com/x/v1.2", "example.com/x/type",
+				"example.com/x/9lives", "bare" + strings.ReplaceAll(dir, ".", "root"), "example.com/gen/alpha", "example.com/y/func;select", "example.com/y/Mixed_Case",
+				"example.com/z/a.b-c;d-e.f", "only/one"}
+			fp.GoPackage = pool[r.Intn(len(pool))]
 		}
 		if o.locs {
 			genLocs(r, fp)
